@@ -180,6 +180,8 @@ class Gen:
         elif r < 0.45 and len(lead) == 0 and sig[0][2] is not None:
             how = "from_images"
         op = {"op": "new", "out": out, "sig": sig, "lead": lead, "spatial": spatial, "is_torus": it, "vseed": rng.getrandbits(24), "how": how}
+        if rng.random() < 0.07:
+            op["dtype"] = "int32"  # integer-valued blocks stored as integers: arithmetic must promote, never truncate
         if how == "from_images":
             seq = [(i, c) for i, (_, _, cc) in enumerate(sig) for c in range(cc)]
             # interleave images of different types; channel order inside a type is kept
@@ -874,7 +876,7 @@ def _build_new(op: dict, D: int):
     is_torus = tuple(op["is_torus"])
     blocks = []
     for k, p, c in op["sig"]:
-        blocks.append(((k, p), jnp.asarray(block_values(op["vseed"], (k, p), block_shape(tuple(op["lead"]), c, tuple(op["spatial"]), D, k)))))
+        blocks.append(((k, p), jnp.asarray(block_values(op["vseed"], (k, p), block_shape(tuple(op["lead"]), c, tuple(op["spatial"]), D, k))).astype(op.get("dtype", "float32"))))
     how = op["how"]
     if how == "ctor":
         return geom.MultiImage({t: v for t, v in blocks}, D, is_torus)
